@@ -191,8 +191,12 @@ def inclusive_stop(ctx: Ctx) -> None:
         (ctx.ok if ok else ctx.bad)(R, f, node, 'for the stop field the yielded position includes + 1 on every path' if ok else
                                     'on some path the stop position is yielded without + 1: a label slice excludes its stop label', key=key)
     g = prog.func('util.slice_to_inclusive_slice')
-    rets = [n for n in walk_local(g.node) if isinstance(n, ast.Return)]
-    inl = roles.Inliner(g.node)
+    import copy
+    from sfa.model import _fold_if_assign
+    gnode = copy.deepcopy(g.node)       # `if c: stop = a` / `else: stop = b` is the conditional expression
+    _fold_if_assign(ast.Module(body=[gnode], type_ignores=[]))
+    rets = [n for n in walk_local(gnode) if isinstance(n, ast.Return)]
+    inl = roles.Inliner(gnode)
     kparam = g.params[0] if g.params else 'key'
     good = bool(rets)
     for r in rets:
